@@ -12,6 +12,7 @@ CONSTANTS
   MaxMsgs = 1
   MaxLen = 3
   Dev = {}
+  Store = "dict"
 INVARIANT TypeOK
 INVARIANT MatcherSane
 PROPERTY FailChangesNothing
